@@ -125,6 +125,13 @@ class RobotsTxtChecker(object):
         data = response.body.read(500 * 1024)
         url_info = original_url_info
 
+        # The file is UTF-8 (rfc9309 section 2.3); decoding it as Latin-1
+        # made rules with non-ASCII paths match nothing.
+        try:
+            data = data.decode('utf-8')
+        except UnicodeDecodeError:
+            data = data.decode('latin-1')
+
         try:
             self._robots_txt_pool.load_robots_txt(url_info, data)
         except ValueError:
